@@ -166,10 +166,17 @@ def _file_route(pair):
     fd, path = tempfile.mkstemp(suffix=".prolog", dir=d)
     os.close(fd)
     out = []
+    stamp = None
     try:
         for text in (good, bad):
             with open(path, "w", encoding="utf-8") as f:
                 f.write(text)
+            # same path, same size, same modification time (as after `cp -p` / `rsync -t`): only the content differs
+            if stamp is None:
+                st = os.stat(path)
+                stamp = (st.st_atime_ns, st.st_mtime_ns)
+            else:
+                os.utime(path, ns=stamp)
             try:
                 with contextlib.redirect_stderr(io.StringIO()):
                     r = real.compiler.compile_prolog_from_file(path)
